@@ -39,6 +39,55 @@ func VerifC01_StackPushGet() {
 	verifCover("end")
 }
 
+// VerifC01_StackRange: a range read through client -> server -> registry never ends
+// cleanly with bytes other than the requested slice: it yields exactly
+// content[o0:min(o1,len)] (o1 < 0: to the end) while describing the whole blob, or it
+// fails (on the request or while reading).
+func VerifC01_StackRange() {
+	content := verifBytes("content", verifParam("maxlen", 3))
+	mem := ocimem.New()
+	ctx := context.Background()
+	dig := digest.FromBytes(content)
+	_, err := mem.PushBlob(ctx, "a/b", ociregistry.Descriptor{MediaType: "application/octet-stream", Digest: dig, Size: int64(len(content))}, bytes.NewReader(content))
+	verifAssert(err == nil, "setup")
+	c, _ := vsStack(mem, nil)
+	o0, o1 := verifInt64("o0"), verifInt64("o1")
+	verifAssume(o0 >= 0 && o0 < 1000 && o1 >= -1 && o1 < 1000)
+	n := int64(len(content))
+	rd, err := c.GetBlobRange(ctx, "a/b", dig, o0, o1)
+	if err != nil {
+		verifCover("refused")
+		return
+	}
+	got, rerr := io.ReadAll(rd)
+	rd.Close()
+	if rerr != nil {
+		verifCover("read-error")
+		return
+	}
+	// a clean end-of-stream: the bytes must be the requested slice
+	end := o1
+	if end < 0 || end > n {
+		end = n
+	}
+	valid := o0 <= end
+	verifAssert(valid, "clean-read-only-for-a-valid-range")
+	if valid {
+		verifAssert(int64(len(got)) == end-o0, "range-read-has-the-slice-length")
+		same := int64(len(got)) == end-o0
+		if same {
+			for i := range got {
+				same = same && got[i] == content[o0+int64(i)]
+			}
+		}
+		verifAssert(same, "range-read-yields-exactly-the-slice")
+	}
+	gd := rd.Descriptor()
+	verifAssert(gd.Digest == dig && gd.Size == n, "range-read-describes-the-whole-blob")
+	verifCover("end")
+}
+
 func init() {
+	verifRegister("VerifC01_StackRange", VerifC01_StackRange)
 	verifRegister("VerifC01_StackPushGet", VerifC01_StackPushGet)
 }
